@@ -35,6 +35,24 @@
 /* Public definitions                                                         */
 /*============================================================================*/
 
+/**
+ * Adjusts the cofactors of an extended gcd computed for |a| and |b| to the
+ * signs of the operands, so that c = a * d + b * e holds for a, b themselves.
+ *
+ * @param[in,out] d			- the cofactor of the first operand, can be NULL.
+ * @param[in,out] e			- the cofactor of the second operand, can be NULL.
+ * @param[in] sa			- the sign of the first operand.
+ * @param[in] sb			- the sign of the second operand.
+ */
+static void bn_gcd_ext_sign(bn_t d, bn_t e, int sa, int sb) {
+	if (sa == RLC_NEG && d != NULL) {
+		bn_neg(d, d);
+	}
+	if (sb == RLC_NEG && e != NULL) {
+		bn_neg(e, e);
+	}
+}
+
 #if BN_GCD == BASIC || !defined(STRIP)
 
 void bn_gcd_basic(bn_t c, const bn_t a, const bn_t b) {
@@ -74,7 +92,8 @@ void bn_gcd_basic(bn_t c, const bn_t a, const bn_t b) {
 	}
 }
 
-void bn_gcd_ext_basic(bn_t c, bn_t d, bn_t e, const bn_t a, const bn_t b) {
+static void bn_gcd_ext_basic_imp(bn_t c, bn_t d, bn_t e, const bn_t a,
+		const bn_t b) {
 	bn_t u, v, x_1, y_1, q, r;
 
 	if (bn_is_zero(a)) {
@@ -151,6 +170,13 @@ void bn_gcd_ext_basic(bn_t c, bn_t d, bn_t e, const bn_t a, const bn_t b) {
 		bn_free(q);
 		bn_free(r);
 	}
+}
+
+void bn_gcd_ext_basic(bn_t c, bn_t d, bn_t e, const bn_t a, const bn_t b) {
+	int sa = bn_sign(a), sb = bn_sign(b);
+
+	bn_gcd_ext_basic_imp(c, d, e, a, b);
+	bn_gcd_ext_sign(d, e, sa, sb);
 }
 
 #endif
@@ -353,7 +379,8 @@ void bn_gcd_lehme(bn_t c, const bn_t a, const bn_t b) {
 	}
 }
 
-void bn_gcd_ext_lehme(bn_t c, bn_t d, bn_t e, const bn_t a, const bn_t b) {
+static void bn_gcd_ext_lehme_imp(bn_t c, bn_t d, bn_t e, const bn_t a,
+		const bn_t b) {
 	bn_t x, y, u, v, t0, t1, t2, t3, t4;
 	dig_t _x, _y, q, _q, t, _t;
 	dis_t _a, _b, _c, _d;
@@ -616,6 +643,13 @@ void bn_gcd_ext_lehme(bn_t c, bn_t d, bn_t e, const bn_t a, const bn_t b) {
 	}
 }
 
+void bn_gcd_ext_lehme(bn_t c, bn_t d, bn_t e, const bn_t a, const bn_t b) {
+	int sa = bn_sign(a), sb = bn_sign(b);
+
+	bn_gcd_ext_lehme_imp(c, d, e, a, b);
+	bn_gcd_ext_sign(d, e, sa, sb);
+}
+
 #endif
 
 #if BN_GCD == BINAR || !defined(STRIP)
@@ -680,7 +714,8 @@ void bn_gcd_binar(bn_t c, const bn_t a, const bn_t b) {
 	}
 }
 
-void bn_gcd_ext_binar(bn_t c, bn_t d, bn_t e, const bn_t a, const bn_t b) {
+static void bn_gcd_ext_binar_imp(bn_t c, bn_t d, bn_t e, const bn_t a,
+		const bn_t b) {
 	bn_t x, y, t, u, v, _a, _b, _e;
 	int shift;
 
@@ -831,6 +866,13 @@ void bn_gcd_ext_binar(bn_t c, bn_t d, bn_t e, const bn_t a, const bn_t b) {
 	}
 }
 
+void bn_gcd_ext_binar(bn_t c, bn_t d, bn_t e, const bn_t a, const bn_t b) {
+	int sa = bn_sign(a), sb = bn_sign(b);
+
+	bn_gcd_ext_binar_imp(c, d, e, a, b);
+	bn_gcd_ext_sign(d, e, sa, sb);
+}
+
 #endif
 
 void bn_gcd_ext_mid(bn_t c, bn_t d, bn_t e, bn_t f, const bn_t a, const bn_t b) {
@@ -970,7 +1012,8 @@ void bn_gcd_dig(bn_t c, const bn_t a, dig_t b) {
 	bn_set_dig(c, _u);
 }
 
-void bn_gcd_ext_dig(bn_t c, bn_t d, bn_t e, const bn_t a, const dig_t b) {
+static void bn_gcd_ext_dig_imp(bn_t c, bn_t d, bn_t e, const bn_t a,
+		const dig_t b) {
 	bn_t u, v, x1, y1, q, r;
 	dig_t _v, _q, _t, _u;
 
@@ -1074,4 +1117,11 @@ void bn_gcd_ext_dig(bn_t c, bn_t d, bn_t e, const bn_t a, const dig_t b) {
 		bn_free(q);
 		bn_free(r);
 	}
+}
+
+void bn_gcd_ext_dig(bn_t c, bn_t d, bn_t e, const bn_t a, const dig_t b) {
+	int sa = bn_sign(a);
+
+	bn_gcd_ext_dig_imp(c, d, e, a, b);
+	bn_gcd_ext_sign(d, e, sa, RLC_POS);
 }
